@@ -91,6 +91,34 @@ static void wait_stop_restart()
     pmc_outcome("ok");
 }
 
+// "started again any number of times": five incarnations in a row (plus the warm-up incarnation that ran
+// before the execution was forked), alternating worker counts and policies, each running its own work
+static void restart_many()
+{
+    static Ledger L;
+    L = Ledger{};
+    g = &L;
+    int first_policy = pmc_choose(4, 0);
+    pmc_on_stuck(on_stuck);
+    for (int inc = 0; inc < 5; ++inc)
+    {
+        rt::config c;
+        c.workers = 1 + (inc & 1);
+        c.scheduler = pol[(first_policy + inc) % 4];
+        g_phase = 10 + inc;
+        L = Ledger{};
+        try { rt::start(c); }
+        catch (std::exception const& e) { pmc_fail("restart-failed", "incarnation %d (after %d earlier start/stop cycles in this process) could not be started: %.200s", inc + 2, inc + 1, e.what()); }
+        submit_chain(0, 1);
+        pika::finalize();
+        L.finalize_called = 1;
+        int r = pika::stop();
+        PMC_ASSERT(L.all_done(0, 2), "restart-incomplete", "incarnation %d did not run its own work completely: left = %d %d", inc + 2, L.left[0], L.left[1]);
+        PMC_ASSERT(r == 0, "stop-result", "stop() of incarnation %d returned %d", inc + 2, r);
+    }
+    pmc_outcome("ok");
+}
+
 // 2: stop() is entered before finalize(); a non-pika thread submits work and then finalizes
 static void stop_before_finalize()
 {
@@ -166,11 +194,12 @@ int main(int argc, char** argv)
         {"wait_stop_restart", wait_stop_restart, 2, 3, 0.4, 0.4, 1, focus, sites, "src"},
         {"stop_before_finalize", stop_before_finalize, 1, 3, 0.3, 0.3, 1, focus, sites, "src"},
         {"suspend_resume", suspend_resume, 2, 3, 0.3, 0.3, 1, focus, sites, "src"},
+        {"restart_many", restart_many, 0, 1, 0.05, 0.05, 0, focus, sites, "src"},
     };
     static const char* assumptions[] = {"sequentially consistent interleavings only", "1-2 worker threads; policies local-priority-fifo, static-priority, abp-priority-lifo, local"};
     pmc_config cfg{};
     cfg.property_id = "C05";
-    cfg.rule = "life-cycle histories {start, submit chains that spawn, wait, finalize, stop, restart with another configuration and an entry function, stop entered before finalize with an external submitter, suspend, [resume, suspend,] submit, resume} x policies (data choices) x all schedules within the deviation bound";
+    cfg.rule = "life-cycle histories {start, submit chains that spawn, wait, finalize, stop, restart with another configuration and an entry function, five restarts in a row, stop entered before finalize with an external submitter, suspend, [resume, suspend,] submit, resume} x policies (data choices) x all schedules within the deviation bound";
     cfg.assumptions = assumptions;
     cfg.n_assumptions = 2;
     cfg.warmup = rt::warmup;
